@@ -32,7 +32,8 @@ func (bt *btreeIndex) put(key []byte, pos *datafile.DataPos) *datafile.DataPos {
 	if bt.tree == nil {
 		return nil
 	}
-	it := &item{key: key, pos: pos}
+	// 索引保存 key 的副本, 不持有调用方的切片
+	it := &item{key: append([]byte(nil), key...), pos: pos}
 	oldItem := bt.tree.ReplaceOrInsert(it)
 	if oldItem == nil {
 		return nil
